@@ -39,6 +39,10 @@ def check(model: Model, rep: Report, tier: str):
                    "sub-circuit) behind the channel leaf found by a real leaf query (= C01.R6); the listing that is rebuilt from expands every node in place (= C02.L5)")
     with rep.isolated():
         share_rule(rep, model, l5, "C11.F4", "")
+    from .c01 import r5
+    with rep.isolated():
+        share_rule(rep, model, r5, "C11.F6", "an operation that pointed at a dissolved sub-circuit is re-linked behind the LATEST node sharing one of its channels -- the leaf query "
+                   "skips no node (zero-length markers close a block and are its last nodes), so the follower keeps its place in listing and schedule (= C01.R5)")
     rep.rules_text["C11.F4"] = ("rebuilding the graph places every listed operation exactly once, under its reference or behind the channel leaf found by a real leaf query "
                                 "(= C01.R6); the listing that is rebuilt from expands every node in place (= C02.L5)")
 
